@@ -138,6 +138,11 @@ fn c08_components() -> Value {
         "RArrPrim": {"type": "array", "items": {"type": "integer"}},
         "RArrObj": {"type": "array", "items": {"$ref": "#/components/schemas/RObj"}},
         "RMap": {"type": "object", "additionalProperties": {"type": "integer"}},
+        "RMapRefPrim": {"type": "object", "additionalProperties": {"$ref": "#/components/schemas/RInt"}},
+        "RMapRefObj": {"type": "object", "additionalProperties": {"$ref": "#/components/schemas/RObj"}},
+        "RMapRefArrPrim": {"type": "object", "additionalProperties": {"$ref": "#/components/schemas/RArrPrim"}},
+        "RArrRefPrim": {"type": "array", "items": {"$ref": "#/components/schemas/RDate"}},
+        "RArrRefAliasPrim": {"type": "array", "items": {"$ref": "#/components/schemas/RAliasPrim"}},
         "RAlias": {"allOf": [{"$ref": "#/components/schemas/RObj"}]},
         "RAliasPrim": {"allOf": [{"$ref": "#/components/schemas/RStr"}]},
         "ROneOf": {"oneOf": [{"type": "string"}, {"type": "integer"}]},
@@ -432,11 +437,35 @@ fn oracle_c08_collect(rep: &mut Report, c: &Case, spec: &openapiv3::OpenAPI, h: 
             meta.push((ci, format!("property {name}.{pn}"), specio::ty(&f.ty)));
         }
     }
+    // map and array components: the value / item type
+    for (name, sref) in &spec.components.schemas {
+        let Some(s) = sref.as_item() else { continue };
+        match (&s.kind, h.schemas.get(name)) {
+            (openapiv3::SchemaKind::Type(openapiv3::Type::Object(o)), Some(hir::Record::TypeAlias(_, f))) if o.properties.is_empty() => {
+                if let Some(openapiv3::AdditionalProperties::Schema(v)) = &o.additional_properties {
+                    if let mir::Ty::HashMap(inner) = &f.ty { reqs.push(format!("(doc_ty {dump} {})", specio::sref(v))); meta.push((ci, format!("map-value {name}"), specio::ty(inner))); }
+                    else { rep.oracle_fail("mapComponentNotMap", vec![], &case_text(c), name); }
+                }
+            }
+            (openapiv3::SchemaKind::Type(openapiv3::Type::Array(a)), Some(hir::Record::NewType(nt))) => {
+                if let (Some(it), Some(f)) = (&a.items, nt.fields.first()) {
+                    if let mir::Ty::Array(inner) = &f.ty { reqs.push(format!("(doc_ty {dump} {})", specio::sref(it))); meta.push((ci, format!("array-item {name}"), specio::ty(inner))); }
+                }
+            }
+            (openapiv3::SchemaKind::AllOf { all_of }, Some(hir::Record::TypeAlias(_, f))) if all_of.len() == 1 => {
+                reqs.push(format!("(doc_ty {dump} {})", specio::sref(&all_of[0]))); meta.push((ci, format!("alias-target {name}"), specio::ty(&f.ty)));
+            }
+            _ => {}
+        }
+    }
     // parameter, body-property and result positions
     for (path, method, op, item) in spec.operations() {
         let Some(ho) = h.operations.iter().find(|o| o.path == path && o.method == method) else { rep.oracle_fail("operationMissing", vec![], &case_text(c), &format!("{method} {path}")); continue };
-        for p in op.parameters.iter().chain(item.parameters.iter()) {
+        let own: Vec<String> = op.parameters.iter().filter_map(|p| p.as_item().map(|p| p.data.name.clone())).collect();
+        for (i, p) in op.parameters.iter().chain(item.parameters.iter()).enumerate() {
             let Some(p) = p.as_item() else { continue };
+            // a path-item parameter re-declared by the operation is overridden
+            if i >= op.parameters.len() && own.contains(&p.data.name) { continue; }
             let Some(sch) = p.data.schema() else { continue };
             if let Some(hp) = ho.parameters.iter().find(|q| q.name == p.data.name) {
                 reqs.push(format!("(doc_ty {dump} {})", specio::sref(sch)));
@@ -540,20 +569,23 @@ fn oracle_c07(rep: &mut Report, c: &Case, spec: &openapiv3::OpenAPI, h: &hir::Hi
     if let Some(paths) = doc["paths"].as_object() {
         for item in paths.values() {
             let Some(item) = item.as_object() else { continue };
-            let collect_params = |ps: &Value, reach: &mut BTreeSet<String>| {
-                for p in ps.as_array().cloned().unwrap_or_default() {
-                    let p = match p.get("$ref").and_then(|r| r.as_str()) { Some(r) => doc["components"]["parameters"].get(r.rsplit('/').next().unwrap()).cloned().unwrap_or(Value::Null), None => p };
-                    if let Some(sc) = p.get("schema") { typed_refs(doc, &comps, sc, reach, 0); }
-                }
-            };
-            if let Some(ps) = item.get("parameters") { collect_params(ps, &mut reach); }
+            let resolve_param = |p: &Value| -> Value { match p.get("$ref").and_then(|r| r.as_str()) { Some(r) => doc["components"]["parameters"].get(r.rsplit('/').next().unwrap()).cloned().unwrap_or(Value::Null), None => p.clone() } };
             for (verb, op) in item {
                 if !["get", "put", "post", "delete", "options", "head", "patch", "trace"].contains(&verb.as_str()) { continue; }
-                if let Some(ps) = op.get("parameters") { collect_params(ps, &mut reach); }
+                let own: Vec<Value> = op.get("parameters").and_then(|p| p.as_array()).map(|a| a.iter().map(|p| resolve_param(p)).collect()).unwrap_or_default();
+                let shared: Vec<Value> = item.get("parameters").and_then(|p| p.as_array()).map(|a| a.iter().map(|p| resolve_param(p)).collect()).unwrap_or_default();
+                for p in own.iter().chain(shared.iter().filter(|sp| !own.iter().any(|o| o["name"] == sp["name"]))) {
+                    if let Some(sc) = p.get("schema") { typed_refs(doc, &comps, sc, &mut reach, 0); }
+                }
                 if let Some(bs) = op["requestBody"]["content"]["application/json"].get("schema") {
                     let b = match ref_name(bs) { Some(n) => comps.get(&n).cloned().unwrap_or(Value::Null), None => bs.clone() };
                     if b["type"] == "array" { if let Some(i) = b.get("items") { typed_refs(doc, &comps, i, &mut reach, 0); } }
-                    else { let mut ps = vec![]; body_props(&comps, bs, &mut ps, 0); for (_, p) in ps { typed_refs(doc, &comps, &p, &mut reach, 0); } }
+                    else {
+                        // a body member whose name is taken by a parameter is outside D (one scope per operation)
+                        let taken: Vec<String> = own.iter().chain(shared.iter()).filter_map(|p| p["name"].as_str().map(|s| s.to_string())).collect();
+                        let mut ps = vec![]; body_props(&comps, bs, &mut ps, 0);
+                        for (n, p) in ps { if !taken.contains(&n) { typed_refs(doc, &comps, &p, &mut reach, 0); } }
+                    }
                 }
                 if let Some(r) = first_present_response(op) {
                     if let Some(sc) = r["content"]["application/json"].get("schema") {
@@ -563,12 +595,13 @@ fn oracle_c07(rep: &mut Report, c: &Case, spec: &openapiv3::OpenAPI, h: &hir::Hi
             }
         }
     }
+    let mut via: BTreeMap<String, String> = reach.iter().map(|n| (n.clone(), "an operation".to_string())).collect();
     let mut frontier: Vec<String> = reach.iter().cloned().collect();
     while let Some(n) = frontier.pop() {
         if let Some(s) = comps.get(&n) {
             let mut more = BTreeSet::new();
             record_refs(doc, &comps, s, &mut more);
-            for m in more { if reach.insert(m.clone()) { frontier.push(m); } }
+            for m in more { if reach.insert(m.clone()) { via.insert(m.clone(), n.clone()); frontier.push(m); } }
         }
     }
     // what treeshake may legitimately inline away: optional aliases (nullable allOf[1] to a model) that end up unmentioned
@@ -580,7 +613,7 @@ fn oracle_c07(rep: &mut Report, c: &Case, spec: &openapiv3::OpenAPI, h: &hir::Hi
         if nullable_alias && !from_ops.contains(n) && !from_schemas.contains(n) { rep.bump("c07_inlined_nullable_alias"); continue; }
         // reachable only through a primitive-resolved position? e.g. referenced only from a component that is itself unreachable
         let arr_inline = s["type"] == "array" && s["items"].get("$ref").is_none() && s["items"].is_object();
-        rep.oracle_fail("reachableRemoved", if arr_inline { vec!["arrayComponentInlineItemsReferenced".to_string()] } else { vec![] }, &case, &format!("component {n} is referenced from operations (directly or through members) but was pruned"));
+        rep.oracle_fail("reachableRemoved", if arr_inline { vec!["arrayComponentInlineItemsReferenced".to_string()] } else { vec![] }, &case, &format!("component {n} is referenced from operations (directly or through members; via {}) but was pruned", via.get(n).cloned().unwrap_or_default()));
     }
     // 3. invented names never replace a component: compare with the extraction of the components alone
     let mut only = doc.clone();
